@@ -8,7 +8,7 @@
 (*                 one byte differs from the snapshot taken before the call  *)
 (*    outside      a guard byte between/around the arguments changed         *)
 (* A run is a single event: the verdict is a function of the observation.    *)
-EXTENDS CryptoDispatch
+EXTENDS MemDispatch
 
 Bad(why) == [bad |-> TRUE, why |-> why]
 IsBad(c) == c.bad
@@ -21,7 +21,7 @@ CReset(e) ==
       w == Range(e.written)
       illegal == w \ MayWrite(cf)
   IN IF e.args # MemArgs(e.fn) \/ e.spares # SpareVec(e.sv, Len(MemArgs(e.fn)))
-     THEN Bad("harness: argument layout differs from the configuration")
+     THEN Bad("harness: argument layout mismatch")
      ELSE IF ~(w \subseteq Regions(e.fn)) THEN Bad("harness: unknown region")
      ELSE IF e.outside THEN Bad("outside")
      ELSE IF illegal # {} THEN
